@@ -661,7 +661,9 @@ SMALLS = [1.0, 2.0, 3.0, 0.5, 1.5, -1.0, -2.0, 4.0, 0.25, -0.5, 10.0, 7.0]
 # literals (decimal, no exponent: the grammar's numbers) reaching the same ranges
 WIDE_LITS = ["0.1", "1000000", "9007199254740993", "123456789012345678901234567890", "0.000000000000000000002",
              "0." + "0" * 308 + "25", "0." + "0" * 322 + "5", "0." + "0" * 299 + "1", "1" + "0" * 300, "17976931348623157" + "0" * 292,
-             "1" + "0" * 400, "0.0000000000000001", "4.5", "1" + "0" * 154]
+             "1" + "0" * 400, "0.0000000000000001", "4.5", "1" + "0" * 154,
+             # the other forms float() reads and the tokeniser lets through (no sign in the exponent: '-' is an operator)
+             "1e5", "2E3", "2.5e300", "1e400", ".5e1", "5.e2", "1_0e1_0", "3e0", "0e99", "inf", "nan", "Infinity", "iNf"]
 
 
 def wide_value(rng, special=True):
@@ -746,7 +748,8 @@ class P(Prop):
     trusted = ["float(), str.replace/split/strip, numpy.argsort (NaN last), math.sqrt, float ** float are modelled by contract",
                "the feature table is modelled as an insertion-ordered association list (its index-remapping representation is C01's subject)"]
     rule = ("expression trees over names {a,b,x,y,z,t,idx,speed_2}, literals {0,1,2,0.5,(3,4,0.25,10 in the random stream)} and decimal literals reaching the "
-            "ends of the double range (2.5e-309 ... 1e308, 2**53+1, 30-digit integers, an infinite one), operators + - * / ^ < >, "
+            "ends of the double range (2.5e-309 ... 1e308, 2**53+1, 30-digit integers, an infinite one), the other tokens float() reads "
+            "(1e5, 2.5E3, .5e1, 1_0e1_0, inf, nan, Infinity), operators + - * / ^ < >, "
             "unary minus (parenthesised form and the bare positions: start, after =, ( and {, after + or -), redundant parentheses, the "
             "functions I D D2 ABS SQRT LOG DIODE SIGN EXP COS SIN TAN, SUM AVG VAR STD MSE RMSE MAD MIN MAX MEDIAN ARGMIN ARGMAX and the ' shorthand; "
             "all trees of depth <= 2 (x lhs none/new/existing/coordinate), depth <= 3 over a small alphabet, random to depth 6; reflexive forms a+=e; "
@@ -1148,7 +1151,7 @@ class P(Prop):
             return ["bin", c["op"], lit(c["s"]), a]
         return ["call", c["op"], a]
 
-    ALPHABET = list("ab2x0.5") + list("+-*/^<>()=") + list("+-*/()") + ["D{", "}", "SUM{", "**", " ", "'", ">>", "I(", "{", "-", "(-", "=-", "+=", "*="]
+    ALPHABET = list("ab2x0.5eE_") + ["inf", "nan", "1e3"] + list("+-*/^<>()=") + list("+-*/()") + ["D{", "}", "SUM{", "**", " ", "'", ">>", "I(", "{", "-", "(-", "=-", "+=", "*="]
 
     def rand_string(self, rng):
         return "".join(rng.choice(self.ALPHABET) for _ in range(rng.randrange(0, 12)))
@@ -1170,7 +1173,8 @@ class P(Prop):
             return rng.choice(["c", "a", "x", "t", "idx", "2"]) + rng.choice(["+=", "-=", "*=", "/=", "^=", "="]) + s
         if k == 3:
             return s.replace("{", "(") if rng.random() < 0.5 else s.replace("a", "d")
-        return rng.choice(["D{2}", "SUM{2}", "D{1+2}", "a*-b", "a+1e-5", "2=a", "(c=a)+1", "c=a=b", "a%b", "a>>1", "a.*b", "timestamp+1", "t=a", "idx=a"])
+        return rng.choice(["a*1e", "a*1e5.5", "a*1_e5", "a*e5", "a*1e-5", "a*infinit", "a*0x10", "a*1ee5", "c=1e3", "a*.e1",
+                           "D{2}", "SUM{2}", "D{1+2}", "a*-b", "a+1e-5", "2=a", "(c=a)+1", "c=a=b", "a%b", "a>>1", "a.*b", "timestamp+1", "t=a", "idx=a"])
 
     # ---------------------------------------------------------------- tags
     def describe(self, case):
